@@ -27,8 +27,17 @@ pub fn sslice(case: &Case, eff: &mut Eff, f: impl for<'a> FnOnce(ParEmpty<SchedI
     r
 }
 
+/// endless sources: the reference sees the first 64 positions (every mask slot occurs among them)
+fn elems_of_iter(case: &Case) -> Eff {
+    if case.endless {
+        (0..64).map(|p| crate::source::src_elem(&case.input, p)).collect()
+    } else {
+        elems_of(&case.input)
+    }
+}
+
 pub fn siter(case: &Case, eff: &mut Eff, f: impl FnOnce(ParEmpty<SchedIter<ConIterOfIter<Tok, LogIter>>>) -> R) -> R {
-    *eff = elems_of(&case.input);
+    *eff = elems_of_iter(case);
     let it = LogIter::new(&case.input, case.known, case.endless);
     f(par_from_con_iter(SchedIter::new(IterIntoConcurrentIter::into_con_iter(it))))
 }
@@ -87,7 +96,7 @@ pub fn prange(case: &Case, eff: &mut Eff, f: impl FnOnce(ParEmpty<ConIterOfRange
 }
 
 pub fn piter(case: &Case, eff: &mut Eff, f: impl FnOnce(ParEmpty<ConIterOfIter<Tok, LogIter>>) -> R) -> R {
-    *eff = elems_of(&case.input);
+    *eff = elems_of_iter(case);
     f(LogIter::new(&case.input, case.known, case.endless).par())
 }
 
